@@ -56,6 +56,15 @@ def _client_hello(suites=b'\x00\x2f', extensions=b''):
     return b'\x01' + _u24(len(body)) + body
 
 
+def _groups_and_key_shares(count):
+    count = min(count, 9000)
+    groups = [0x1a1b + number for number in range(count)]          # unassigned code points, pairwise different
+    offered = b''.join(_u16(group) for group in groups)
+    shares = b''.join(_u16(group) + b'\x00\x01\x00' for group in groups)
+    return (b'\x00\x0a' + _u16(len(offered) + 2) + _u16(len(offered)) + offered +
+            b'\x00\x33' + _u16(len(shares) + 2) + _u16(len(shares)) + shares)
+
+
 def _kexinit(lists):
     out = b'\x14' + bytes(16)
     for names in lists:
@@ -111,6 +120,9 @@ SHAPES = {
                                   lambda k: _client_hello(suites=b''.join(_u16(0x7000 + i) for i in range(k))), 120),
     'tls_unknown_extensions': ('cryptoparser.tls.subprotocol.TlsHandshakeClientHello',
                                lambda k: _client_hello(extensions=b''.join(_u16(0xf000 + (i % 3000)) + b'\x00\x02ab' for i in range(k))), 60),
+    # two lists that refer to each other: every offered group also carries a key share, in the same order
+    'tls_groups_with_key_shares': ('cryptoparser.tls.subprotocol.TlsHandshakeClientHello',
+                                   lambda k: _client_hello(extensions=_groups_and_key_shares(k)), 60),
     'tls_alpn_names': ('cryptoparser.tls.extension.TlsExtensionApplicationLayerProtocolNegotiation',
                        lambda k: (lambda names: b'\x00\x10' + _u16(len(names) + 2) + _u16(len(names)) + names)(b'\x08http/1.1' * k), 60),
     'tls_named_groups': ('cryptoparser.tls.extension.TlsExtensionEllipticCurves',
